@@ -169,6 +169,7 @@ class Executor(object):
         self.loop_counter = {}
         self.frames = []
         self.mode = 'code'
+        self.cur_loop_idx = None
         self.assume_ctx = []
         VObj._n = 0
 
@@ -305,6 +306,10 @@ class Executor(object):
             return VOpaque(tag, z3.Int(n))
         if typ.startswith('lock:'):
             return VLock(typ[5:])
+        if typ.startswith('lit:'):
+            return self.world.py_to_value(ast.literal_eval(typ[4:]), name)
+        if typ == 'any':
+            raise Unsupported('cannot create a value of type any')
         if typ == 'dict2':
             return self.world.fresh_dict2(self, n)
         if typ in self.world.custom_types:
@@ -378,6 +383,8 @@ class Executor(object):
             return VOpaque(v.tag, z3.Int(n))
         if isinstance(v, VDict2):
             return self.world.fresh_dict2(self, n)
+        if isinstance(v, VMap):
+            return VMap(z3.Const(n, v.arr.sort()))
         if isinstance(v, (VObj, VLock, VClass, VFunc, VModule)):
             return v
         raise Unsupported('cannot havoc %r' % (v,))
@@ -654,6 +661,10 @@ class Executor(object):
                 locs = self.resolve_path(m, roots)
             for o, f in locs:
                 allowed.add((id(o), f))
+            if m.endswith('.*') and m.count('.') == 1 and m.split('.')[0] in roots and isinstance(roots[m.split('.')[0]], VObj):
+                o = roots[m.split('.')[0]]
+                for f in list(o.fields) + list(self.old_snap.get(id(o), (o, {}))[1]):
+                    allowed.add((id(o), f))
         for oid, (o, oldf) in self.old_snap.items():
             for f, ov in oldf.items():
                 nv = o.fields.get(f)
@@ -766,6 +777,7 @@ class Executor(object):
                     self.oblige('new-attribute[%s.%s]' % (o.cls, target.attr), z3.BoolVal(False), set(self.contract.props), 'frame',
                                 expr='%s has no state other than its declared fields' % o.cls)
             self.world.on_field_write(self, o, target.attr, v)
+            self.world.guarded_access(self, o, target.attr, target)
             o.fields[target.attr] = v
         elif isinstance(target, ast.Subscript):
             self.assign_subscript(target, v)
@@ -1034,8 +1046,11 @@ class Executor(object):
                     names.add(n.name)
         return names, attr_targets, calls
 
-    def loop_havoc(self, st, spec):
+    def loop_havoc(self, st, spec, seq=None):
         names, attr_targets, calls = self.collect_writes(st.body + ([st.target] if isinstance(st, ast.For) else []))
+        if seq is not None:
+            # the loop variable holds *some* element: make it resolvable for the static write set
+            self.assign(st.target, seq.elem(z3.Int(self.fresh_name('_any'))))
         locs = []
         for a in attr_targets:
             try:
@@ -1099,22 +1114,55 @@ class Executor(object):
             uniq[(id(o), f)] = (o, f)
         self.havoc_locs(uniq.values())
 
-    def call_write_set(self, call):
-        """Static write set of a call inside a loop body: the callee contract's modifies, mapped through the arguments."""
-        try:
-            target = self.resolve_callee_static(call.func)
-        except Unsupported:
+    def call_write_set(self, call, depth=0):
+        """Static write set of a call inside a loop body: the callee contract's modifies mapped through the arguments;
+        for an un-contracted helper of the package, the write set of its body.  Anything that cannot be resolved
+        statically stops the run (UNDECIDED) -- a silently empty write set would make the loop cut unsound."""
+        kind, contract, recv, extra = self.resolve_callee_static(call.func)
+        if kind == 'pure':
             return []
-        if target is None:
-            return []
-        contract, recv = target
-        if contract is None:
-            return []
+        if kind == 'inline':
+            module, fnode = extra
+            if depth > 4:
+                raise Unsupported('write set: inlining too deep at line %s' % call.lineno)
+            bound = {}
+            pnames = [a.arg for a in fnode.args.args]
+            if recv is not None and pnames and pnames[0] in ('self', 'cls'):
+                bound[pnames[0]] = recv
+                pnames = pnames[1:]
+            for p, a in zip(pnames, call.args):
+                try:
+                    bound[p] = self.eval_pure(a)
+                except Unsupported:
+                    pass
+            for kw in call.keywords:
+                if kw.arg:
+                    try:
+                        bound[kw.arg] = self.eval_pure(kw.value)
+                    except Unsupported:
+                        pass
+            saved = (self.env, self.cur_module)
+            self.env, self.cur_module = bound, module
+            try:
+                names, attr_targets, calls = self.collect_writes(fnode.body)
+                locs = []
+                for a in attr_targets:
+                    o = self.eval_pure(a.value)
+                    if isinstance(o, VOpt):
+                        o = o.val
+                    if isinstance(o, VObj) and a.attr in o.fields:
+                        locs.append((o, a.attr))
+                for c in calls:
+                    locs.extend(self.call_write_set(c, depth + 1))
+                return locs
+            finally:
+                self.env, self.cur_module = saved
         roots = {}
         pnames = list(contract.params.keys())
         args = list(call.args)
-        if recv is not None and pnames and pnames[0] in ('self', 'cls'):
-            roots[pnames[0]] = recv
+        if pnames and pnames[0] in ('self', 'cls'):
+            if recv is not None:
+                roots[pnames[0]] = recv
             pnames = pnames[1:]
         for p, a in zip(pnames, args):
             try:
@@ -1131,6 +1179,8 @@ class Executor(object):
         for m in contract.modifies:
             root = m.split('.')[0]
             if root != 'G' and root not in roots:
+                if isinstance(contract.params.get(root, ''), str) and contract.params.get(root, '').startswith('obj:'):
+                    raise Unsupported('write set: argument %s of %s is not a simple name (line %s)' % (root, contract.key, call.lineno))
                 continue
             locs.extend(self.resolve_path(m, roots))
         return locs
@@ -1152,38 +1202,92 @@ class Executor(object):
             raise Unsupported('pure eval of attribute')
         if isinstance(node, ast.Constant):
             return self.eval(node)
+        if isinstance(node, ast.Subscript) and not isinstance(node.slice, ast.Slice):
+            base = self.eval_pure(node.value)
+            if isinstance(base, VOpt):
+                base = base.val
+            idx = self.eval_pure(node.slice)
+            if isinstance(base, VSeq) and isinstance(idx, VInt):
+                return base.elem(idx.term)
+            if isinstance(base, (VTuple, VList)) and isinstance(idx, VInt) and idx.concrete() is not None \
+                    and -len(base.items) <= idx.concrete() < len(base.items):
+                return base.items[idx.concrete()]
         raise Unsupported('pure eval of %s' % type(node).__name__)
 
     def resolve_callee_static(self, fnode):
-        """-> (contract or None, receiver object or None) for a call's func expression, or None if it is a lib call."""
+        """-> (kind, contract, receiver, extra): kind in 'pure' | 'contract' | 'inline'.  Raises Unsupported when unknown."""
         if isinstance(fnode, ast.Attribute):
-            try:
-                base = self.eval_pure(fnode.value)
-            except Unsupported:
-                return None
+            if isinstance(fnode.value, ast.Call) and isinstance(fnode.value.func, ast.Name) and fnode.value.func.id == 'get_running_loop':
+                return ('pure', None, None, None)        # run_in_executor: the wrapped callee is collected as an argument call below
+            base = self.eval_pure_or_none(fnode.value)
+            if base is None:
+                raise Unsupported('write set: receiver of .%s() at line %s cannot be resolved statically' % (fnode.attr, fnode.lineno))
             if isinstance(base, VOpt):
                 base = base.val
             if isinstance(base, VObj):
                 c = dsl.CONTRACTS.get('%s.%s' % (base.cls, fnode.attr))
-                if c is None:
-                    c = self.world.synth_contract_for_inline(self, base, fnode.attr)
-                return (c, base)
+                if c is not None and not c.inline:
+                    return ('contract', c, base, None)
+                d = dsl.CLASSES.get(base.cls)
+                if d is not None and d.real.get(self.twin):
+                    modshort, clsname = d.real[self.twin].split(':')
+                    module = self.sources.module(modshort)
+                    fn = self.world.find_method(module, clsname, fnode.attr)
+                    if fn is not None:
+                        return ('inline', None, base, (fn[1], fn[0]))
+                raise Unsupported('write set: %s.%s has neither contract nor source' % (base.cls, fnode.attr))
             if isinstance(base, VOpaque):
+                if base.tag == 'logger':
+                    return ('pure', None, None, None)
                 c = dsl.CONTRACTS.get('%s.%s' % (base.tag, fnode.attr))
-                return (c, None)
-            return None
+                if c is None:
+                    raise Unsupported('write set: opaque %s.%s has no contract' % (base.tag, fnode.attr))
+                return ('contract', c, base, None)
+            if isinstance(base, VModule):
+                v = self.world.module_attr(self, base, fnode.attr)
+                return self._static_of_value(v, fnode)
+            return ('pure', None, None, None)            # methods of bytes / str / tuples / constant dicts / store references
         if isinstance(fnode, ast.Name):
             if fnode.id in self.env:
-                v = self.env[fnode.id]
-                if isinstance(v, VOpaque):
-                    return (dsl.CONTRACTS.get('%s.__call__' % v.tag), None)
-                return None
+                return self._static_of_value(self.env[fnode.id], fnode)
             v = self.world.resolve_global(self, fnode.id)
-            if isinstance(v, VFunc) and v.how == 'repo':
-                return (self.world.contract_for_repo_func(v), None)
-            if isinstance(v, VClass):
-                return (self.world.contract_for_class_init(v), None)
-        return None
+            return self._static_of_value(v, fnode)
+        raise Unsupported('write set: callee expression at line %s' % getattr(fnode, 'lineno', '?'))
+
+    def _static_of_value(self, v, fnode):
+        if isinstance(v, VOpt):
+            v = v.val
+        if isinstance(v, VOpaque):
+            c = dsl.CONTRACTS.get('%s.__call__' % v.tag)
+            if c is None:
+                raise Unsupported('write set: opaque callable %s has no contract' % v.tag)
+            return ('contract', c, v, None)
+        if isinstance(v, VFunc):
+            if v.how == 'lib':
+                c = dsl.CONTRACTS.get(v.info[0])
+                if c is not None:
+                    return ('contract', c, None, None)
+                return ('pure', None, None, None)
+            if v.how == 'repo':
+                c = self.world.contract_for_repo_func(v)
+                if c is not None and not c.inline:
+                    return ('contract', c, None, None)
+                module = self.sources.module(v.info[0])
+                return ('inline', None, None, (module, module.funcs[v.info[1]]))
+            if v.how == 'method':
+                return ('pure', None, None, None)
+        if isinstance(v, VClass):
+            c = self.world.contract_for_class_init(v)
+            if c is not None and not c.inline:
+                return ('contract', c, None, None)
+            return ('pure', None, None, None)            # constructing a fresh object writes no existing state
+        raise Unsupported('write set: cannot classify callee %r' % (v,))
+
+    def eval_pure_or_none(self, node):
+        try:
+            return self.eval_pure(node)
+        except (Unsupported, KeyError):
+            return None
 
     def cut_loop(self, st, kind, seq=None):
         ordinal = self.loop_ordinal(st)
@@ -1197,10 +1301,11 @@ class Executor(object):
         # 1. invariant on entry
         self.assert_invariant(spec, tag + '/entry', idx, seq)
         # 2. havoc the loop's write set, assume the invariant
-        self.loop_havoc(st, spec)
+        self.loop_havoc(st, spec, seq)
         if kind == 'for':
             idx = VInt(z3.Int(self.fresh_name('_i')))
             self.assume(z3.And(idx.term >= 0, idx.term <= seq.length))
+            self.cur_loop_idx = idx
         self.assume_invariant(spec, idx, seq)
         var0 = None
         if spec.variant is not None:
@@ -1350,6 +1455,8 @@ class Executor(object):
             base = self.nonnull(base, 'attribute access .%s' % attr)
         if isinstance(base, VObj):
             if attr in base.fields:
+                if self.mode == 'code':
+                    self.world.guarded_access(self, base, attr, node)
                 return base.fields[attr]
             return self.world.object_attr(self, base, attr)
         if isinstance(base, VModule):
@@ -1756,7 +1863,7 @@ class Executor(object):
             self.oblige('call[%s]/%s' % (site, c.label), f, self.props_of(c, self.contract) | (c.props or set()), 'pre', expr=c.expr)
             self.assume(f)
         for c in self.contract.call_asserts.get(contract.key, []):
-            sc = dict(self.inv_scope(None, None))
+            sc = dict(self.inv_scope(getattr(self, 'cur_loop_idx', None), None))
             sc.update({'_arg_' + k: v for k, v in bound.items()})
             f = self.eval_clause(c, sc)
             self.oblige('call[%s]/%s' % (site, c.label), f, self.props_of(c, self.contract), 'call-site', expr=c.expr)
